@@ -48,8 +48,9 @@ META = {
     "C05": dict(
         technique="rapid stateful op-lists with store-fault injection and in-flight save windows against a durable-progress model; periodic ticker and Commit variants",
         text="Every save outcome is checked: success => D_t0(v) <= stored(v) <= M_t1(v); a skipped save is a violation if advanced progress is not "
-             "durable; failures forget nothing; no write when nothing changed. Two defects found this way were repaired (fix: commits bf5a7b0, "
-             "547ab85); their shrunk replays are re-run on every check.",
+             "durable; failures forget nothing; no write when nothing changed. Overlapping saves (a Save() queued behind one in flight) are "
+             "generated as well. Three defects found this way were repaired (fix: commits bf5a7b0, 547ab85, c986467); their shrunk replays are "
+             "re-run on every check.",
         note="'timeout' of a store call is modelled as a rejected save (the Couchbase backend maps a deadline to an error); real-time ticker unit waits up to 5 s (typical 4 ms).",
     ),
     "C06": dict(
@@ -64,7 +65,8 @@ META = {
         text="The real checkpoint.Load + openAllStreams run on interface-level fakes for every combination of auto-reset, mode, backend and stored "
              "subset with full-range uint64 fields; the real client.OpenStream and the real Couchbase xattr metadata run over real gocbcore "
              "agents against the simulated node, where the wire extras and the KV write set are observed. Sampling over a very large input "
-             "space with boundary classes; not exhaustive.",
+             "space with boundary classes; not exhaustive. The file backend additionally runs under the history engine "
+             "(saves with idle and dirty vBuckets, crash, restart): the file must hold the last value handed over for every assigned vBucket.",
         note="simnode is my model of the memcached/DCP/sub-document protocol as gocbcore v10.5.2 speaks it (trusted). 'custom' backend = the in-memory fake.",
     ),
     "C03": dict(
@@ -76,7 +78,9 @@ META = {
     "C12": dict(
         technique="rapid stateful op-lists with stream-end fault injection over the full cause alphabet + finite-mode scenarios against an active-stream / reopen model",
         text="Every end cause at every position of generated histories; transient => exactly one reopen from the settled position, others final; "
-             "active count and stop channel checked in both directions after every end; finite mode stops exactly after each vBucket's sampled end.",
+             "active count and stop channel checked in both directions after every end; finite mode stops exactly after each vBucket's sampled end. "
+             "Histories include rebalances and STREAM_END from inside CloseStream; a stress unit attacks the finish-token hand-over across "
+             "sessions (defect found there repaired, fix: commit 4cc4014).",
         note="The stream-level stop channel is observed (Dcp.Start's return is exercised in C13). Reopen retries use the library's hard-coded 1 s sleep: only a small share of cases inject a refused reopen.",
     ),
     "C16": dict(
@@ -105,12 +109,14 @@ META = {
         technique="rapid-generated notification bursts placed by barriers (close / delay / reopen) in child processes, trace oracle (bracket grammar, counts, ranges, offsets, timing lower bound) + schedule stress",
         text="The harness owns the schedule at CloseStream, OpenStream and the lifecycle callbacks and measures the placements inside the delay; "
              "the library's own goroutine race (finish-token waiter vs. reopen), which it does not own, is attacked statistically by thousands "
-             "of zero-delay rebalances under scheduling pressure. Two defects found here were repaired (fix: commits e00c6fc, c4f8c04).",
+             "of zero-delay rebalances under scheduling pressure (static and dynamic membership). Three defects found here were repaired "
+             "(fix: commits e00c6fc, c4f8c04, 86b6ba0).",
         note="API path (GET /rebalance, PUT /membership/info) is represented by the direct call / bus publication it makes; timing-placed cases that arrive late are discarded and counted.",
     ),
     "C13": dict(
         technique="rapid-generated (lifecycle state x component configuration x history) cases, each a child process running the real Start()/Close(); crash / hang / leftover activity observed",
-        text="Close() or SIGINT is delivered at barriers: idle, consumer inside ConsumeEvent, save blocked in the store (later ok / failing), with "
+        text="Close() or SIGINT is delivered at barriers: idle, consumer inside ConsumeEvent, an event parked in the rollback-mitigation gate, save "
+             "blocked in the store (later ok / failing), with "
              "auto/manual checkpointing, health check, HTTP API and real rollback-mitigation polling (simulated cluster). The known finding "
              "close_in_rebalance_window (crash / hang when Close arrives while a rebalance has the stream closed) is excluded by construction, "
              "counted, and replayed on every run.",
@@ -125,7 +131,8 @@ META = {
     ),
     "C15": dict(
         technique="fault-class x configuration generation, each case a child process running the real dcp.Start(); exit status / stderr / call log oracle with a control group",
-        text="Every guard of the start-up path is hit with single and multiple faults on generated subsets of vBuckets; a control group of "
+        text="Every guard of the start-up path is hit with single and multiple faults on generated subsets of vBuckets (incl. a store that answers for "
+             "only part of the assignment and corrupt / foreign file dumps); a control group of "
              "fault-free configurations must start, so the check cannot pass by 'everything dies'.",
         note="Interface-level fakes; Couchbase-backend load failures are covered on the wire in C20.",
     ),
@@ -139,7 +146,8 @@ META = {
         technique="rapid-generated completion/deadline orders on a fake PendingOp + per-request fault injection (status / delay / silence / drop) on the simulated node for every operation wrapper, outcome compared with the node's own reply log",
         text="Each wrapper is called over real gocbcore agents while the node answers its requests according to a generated behaviour; the "
              "returned error is compared with what the node actually confirmed (its reply log), and return times with the deadline. One "
-             "defect found this way (GetVBucketSeqNos ignoring the callback error) was repaired (fix: commit 8b0ff5b).",
+             "defect found this way (GetVBucketSeqNos ignoring the callback error) was repaired (fix: commit 8b0ff5b). The checkpoint read of "
+             "cbMetadata.Load runs in a child process against a silent / dropping node and must end (value, error or fail-stop) within its deadline.",
         note="Wrappers with hard-coded 60 s deadlines are exercised with prompt / error / drop only (silence would cost a minute per case); cbMetadata.Load's fail-stop on errors is C15's; membership operations use the same helpers.",
     ),
     "C10": dict(
